@@ -3626,11 +3626,8 @@ impl Server {
             }).unwrap_or(false);
             
             if should_remove {
-                // Check if connection has active subscriptions before cleaning up
-                if self.pubsub.is_subscribed(id) {
-                    // Skip cleanup for connections with active subscriptions
-                    continue;
-                }
+                // A closed connection is removed whatever it was doing: its subscriptions
+                // go with it (see below), or PUBLISH would keep counting a dead subscriber
                 to_remove.push(id);
             }
         }
